@@ -250,10 +250,11 @@ func recordVar(d Desc, rng *rand.Rand, emit func(setEvent), only map[int]bool, i
 	for _, p := range pairs {
 		v, scope := p.v, p.scope
 		*id++
+		spelled := spell(name, rng.Intn(4)) // system variable names are case-insensitive: the SET spells it in a seeded case variant
 		if len(only) > 0 && !only[*id] {
 			continue
 		}
-		q := fmt.Sprintf("SET %s %s = %s", strings.ToUpper(scope), name, v.SQL())
+		q := fmt.Sprintf("SET %s %s = %s", strings.ToUpper(scope), spelled, v.SQL())
 		r := a.exec(q)
 		tv := decorate(v)
 		ev := setEvent{Ev: "set", ID: *id, Var: name, Scope: scope, Val: &tv, SQL: q, Out: "ok"}
@@ -266,6 +267,25 @@ func recordVar(d Desc, rng *rand.Rand, emit func(setEvent), only map[int]bool, i
 		observe(&ev)
 		emit(ev)
 	}
+}
+
+// spell returns a case variant of a variable name: as registered, upper case, capitalised, alternating.
+func spell(name string, k int) string {
+	switch k {
+	case 1:
+		return strings.ToUpper(name)
+	case 2:
+		return strings.ToUpper(name[:1]) + name[1:]
+	case 3:
+		b := []byte(name)
+		for i := range b {
+			if i%2 == 1 && b[i] >= 'a' && b[i] <= 'z' {
+				b[i] -= 32
+			}
+		}
+		return string(b)
+	}
+	return name
 }
 
 func main() {
